@@ -332,6 +332,10 @@ def _nl(xs):
     return "[" + "; ".join(str(int(v)) for v in xs) + "]"
 
 
+def _zl(xs):
+    return "[" + "; ".join(f"({int(v)})" for v in xs) + "]%Z"
+
+
 def conv_spec_coq(l):
     def rel(r):
         return "[" + ";\n      ".join("[" + "; ".join(f"({_nl(g[:-1])}, {int(g[-1])})" for g in k) + "]" for k in r) + "]"
